@@ -7,13 +7,13 @@ CONSTANTS
  RepostAppends = TRUE
  Defect = "none"
  Honest = {1, 2}
- Args <- ArgsCore
+ Args <- ArgsEpoch
  ByzReqs <- Byz3
  MaxByz = 1
  Faults <- FApi
  MaxFault = 1
- Tampers <- TAll
- MaxTamper = 1
+ Tampers <- TNone
+ MaxTamper = 0
  Plants <- PNone
  MaxPlant = 0
  Statuses <- SNone
